@@ -31,6 +31,7 @@ func checkC18(r *Report, p *Program) {
 	timerStopTable(r, p, "R18.10")
 	tombstonesAreValues(r, p, "R18.11")
 	fanOutReachesHandlers(r, p, "R18.12")
+	oneKeyPerSharedMap(r, p, "R18.13")
 }
 
 // lockDiscipline (A6): all accesses to the selected shared maps hold one common
